@@ -32,6 +32,8 @@ type c05Scenario struct {
 	// Stretch > 0: every page is inflated to up to Stretch values drawn around the symbols it
 	// holds (the kernels that compute bounds work on blocks of 8 to 64 values)
 	Stretch int `json:"stretch,omitempty"`
+	// Skip: "bounds" (SkipPageBounds), "stats" (SkipPageStatistics) or "both" for the column
+	Skip string `json:"skip,omitempty"`
 }
 
 type c05Row[T any] struct {
@@ -74,9 +76,19 @@ var (
 	}
 )
 
-func c05Write(kind string, variant int, pages [][]int) (data []byte, err error) {
+func c05Write(kind string, variant int, pages [][]int, skip string) (data []byte, err error) {
 	buf := new(bytes.Buffer)
 	opts := []parquet.WriterOption{parquet.PageBufferSize(1 << 20)}
+	path := []string{"v"}
+	if kind == "doublelist" || kind == "optlist" {
+		path = []string{"v", "list", "element"}
+	}
+	if skip == "bounds" || skip == "both" {
+		opts = append(opts, parquet.SkipPageBounds(path...))
+	}
+	if skip == "stats" || skip == "both" {
+		opts = append(opts, parquet.SkipPageStatistics(path...))
+	}
 	switch kind {
 	case "string2":
 		opts = append(opts, parquet.ColumnIndexSizeLimit(func([]string) int { return 2 }))
@@ -402,7 +414,7 @@ func c05Main(args []string) error {
 			if kind == "doublelist" {
 				// a list row needs at least one symbol; all-null pages become empty lists
 			}
-			data, err := c05Write(kind, variant, pages)
+			data, err := c05Write(kind, variant, pages, sc.Skip)
 			if err != nil {
 				return fmt.Errorf("scenario %d kind %s: %w", sc.ID, kind, err)
 			}
